@@ -609,8 +609,8 @@ def _match_at(pieces, si, k, pat, pi, caps):
                 caps.clear()
                 caps.update(caps2)
                 return r
-            if t.tkind == "punct" and t.text in (";",):
-                return None
+            if t.tkind == "punct" and t.text in (";",) and not val.startswith("BLOCK"):
+                return None   # an ordinary capture never crosses a statement boundary; `$BLOCK..` (item bodies) may
     return None
 
 
@@ -1136,6 +1136,17 @@ class Generator:
                     j += 1
                 self.fragment(kv, hdr)
                 i = j + 1
+            elif s.startswith("//@expect "):
+                # N27: the template transcribes a declaration that lives inside a macro invocation; the transcription is
+                # only valid while the source still contains exactly this token sequence (once)
+                kv = parse_kv(s[len("//@expect "):])
+                _, toks = self.src(kv["file"])
+                ms = find_pattern(pieces_from(toks, 0, len(toks)), kv["tokens"])
+                if len(ms) != 1:
+                    raise ExtractError(f"//@expect {kv.get('id', '')}: the transcribed declaration no longer matches {kv['file']} "
+                                       f"({len(ms)} matches of its token sequence)")
+                self.applied.add("N27", kv["file"], 0, "transcribed declaration checked: " + kv["tokens"][:60])
+                i += 1
             elif s.startswith("//@"):
                 raise ExtractError(f"unknown directive: {s}")
             else:
